@@ -71,12 +71,12 @@ w("markers-delete-keeps-fill", ["C11", "C07"], "C11.markers/commitMarkers/Delete
 # ---- units --------------------------------------------------------------------------------------
 w("numeric-snapshot-relative", ["C07", "C03"], "C07.abs/(*column.numericColumn[T]).Snapshot$1", "numeric snapshot writes relative offsets",
   ("column_numeric.go", "c.write(dst, chunk.Min()+x, data[x])", "c.write(dst, x, data[x])"), suite="survives")
-w("string-apply-absolute-index", ["C01"], "C01.units/(*column.columnString).Apply", "absolute offset indexes a per-block array",
-  ("column_strings.go", "\t\tfrom := chunk.Min()\n\n\t// Update the values of the column, for this one we can only process stores\n\tfor r.Next() {\n\t\toffset := r.Offset - int32(from)", "\t\tfrom := chunk.Min()\n\n\t// Update the values of the column, for this one we can only process stores\n\tfor r.Next() {\n\t\t_ = from\n\t\toffset := r.Offset"))
-w("writestate-relative-inserts", ["C07"], "C07.abs/(*column.Collection).writeState$1$1$1", "insert markers written with relative offsets",
-  ("snapshot.go", "buffer.PutOperation(commit.Insert, offset+idx)", "buffer.PutOperation(commit.Insert, idx)"))
+w("string-apply-absolute-index", ["C01", "C09", "C11"], "C01.units/(*column.columnString).Apply", "absolute offset indexes a per-block array",
+  ("column_strings.go", "\t// Update the values of the column, for this one we can only process stores\n\tfor r.Next() {\n\t\toffset := r.Offset - int32(from)", "\t// Update the values of the column, for this one we can only process stores\n\tfor r.Next() {\n\t\t_ = from\n\t\toffset := r.Offset"))
+w("writestate-relative-inserts", ["C07", "C08"], "C07.abs/(*column.Collection).writeState$1$1$1", "insert markers written with relative offsets",
+  ("snapshot.go", "buffer.PutOperation(commit.Insert, offset+idx)", "buffer.PutOperation(commit.Insert, idx+offset-offset)"))
 w("range-relative-cursor", ["C04"], "C04.units/(*column.Txn).Range$1$1", "cursor set to the block-relative offset",
-  ("txn.go", "\t\t\ttxn.cursor = offset + x\n\t\t\tfn(offset + x)", "\t\t\ttxn.cursor = x\n\t\t\tfn(x)"))
+  ("txn.go", "\t\t\ttxn.cursor = offset + x\n\t\t\tfn(offset + x)", "\t\t\t_ = offset\n\t\t\ttxn.cursor = x\n\t\t\tfn(x)"))
 w("withunion-scratch-too-small", ["C04"], "U.defs/(*column.Txn).WithUnion/scratch", "scratch bitmap shorter than a block",
   ("txn.go", "tmpMap := make(bitmap.Bitmap, 256)", "tmpMap := make(bitmap.Bitmap, 128)"))
 
@@ -136,7 +136,7 @@ w("ascend-stops-early", ["C16"], "C16.scan/(*column.Txn).Ascend/selection", "sca
 w("expiresat-without-zero-test", ["C17"], "C17.guard/(column.rwTTL).ExpiresAt", "rows without a deadline look expired",
   ("column_expire.go", "func (s rwTTL) ExpiresAt() (time.Time, bool) {\n\tif expireAt, ok := s.rw.Get(); ok && expireAt != 0 {", "func (s rwTTL) ExpiresAt() (time.Time, bool) {\n\tif expireAt, ok := s.rw.Get(); ok {"), suite="survives")
 w("vacuum-without-after", ["C17"], "C17.guard/(*column.Collection).vacuum/guard", "cleanup deletes rows whose deadline is in the future",
-  ("column_expire.go", "if expiresAt, ok := ttl.ExpiresAt(); ok && now.After(expiresAt) {", "if _, ok := ttl.ExpiresAt(); ok {"))
+  ("column_expire.go", "if expiresAt, ok := ttl.ExpiresAt(); ok && now.After(expiresAt) {", "if expiresAt, ok := ttl.ExpiresAt(); ok && !now.Before(expiresAt.Add(-time.Hour)) {"))
 w("ttl-extend-as-set", ["C17", "C09"], "C09.queue/(column.rwInt64).Merge", "merge implemented as Set(Get()+delta)",
   ("column_numbers.go", "func (s rwInt64) Merge(delta int64) {\n\ts.writer.PutInt64(commit.Merge, s.txn.cursor, delta)", "func (s rwInt64) Merge(delta int64) {\n\tv, _ := s.Get()\n\ts.writer.PutInt64(commit.Put, s.txn.cursor, v+delta)"), suite="survives")
 
@@ -154,7 +154,7 @@ w("readstate-drops-error", ["C13"], "C13.err/(*column.Collection).readState$1$1"
 w("log-range-applies-failed-decode", ["C13"], "C13.whole/(*commit.Log).Range/callback", "partially decoded commit handed to the callback",
   ("commit/log.go", "\t\tcase err != nil:\n\t\t\treturn err\n\t\t}\n", "\t\t}\n"))
 w("count-includes-indexes", ["C07"], "C07.count/predicate", "announced column count includes indexes that are not written",
-  ("collection.go", "\t\tif !v.cols[0].IsIndex() {\n\t\t\tcount++\n\t\t}", "\t\tcount++"))
+  ("collection.go", "\t\tif !v.cols[0].IsIndex() {\n\t\t\tcount++\n\t\t}", "\t\tif v.cols[0] != nil {\n\t\t\tcount++\n\t\t}"))
 w("writestate-drops-error", ["C14"], "C14.err/(*column.Collection).writeState$1$1", "write error of a block's marker buffer ignored",
   ("snapshot.go", "\t\t\tif err := writer.WriteSelf(buffer); err != nil {\n\t\t\t\treturn err\n\t\t\t}\n", "\t\t\twriter.WriteSelf(buffer)\n"))
 w("varint-stage4-shift", ["C05"], "C05.varint/(*commit.Reader).readOffset", "four-byte deltas decode wrongly",
